@@ -41,11 +41,23 @@ func TestLbvcScenarioRestart(t *testing.T) {
 		t.Skipf("setup failed: %v", err)
 	}
 	client.CreateStream(ctx, "gone", "gone")
+	// a stream that is paused and then resumed (by a publish): it is NOT paused when the server restarts
+	client.CreateStream(ctx, "resumed", "resumed")
+	client.Publish(ctx, "resumed", []byte("r0"), lift.AckPolicyLeader())
+	client.PauseStream(ctx, "resumed", lift.ResumeAll())
+	for i := 0; i < 50; i++ {
+		if p := s1.metadata.GetPartition("resumed", 0); p != nil && p.IsPaused() {
+			break
+		}
+		time.Sleep(50 * time.Millisecond)
+	}
+	client.Publish(ctx, "resumed", []byte("r1"), lift.AckPolicyLeader())
 	client.Publish(ctx, "foo", []byte("m0"), lift.AckPolicyLeader())
 	client.SetStreamReadonly(ctx, "foo")
 	client.DeleteStream(ctx, "gone")
 	client.Close()
 	want := lbvcPartitionState(s1, "foo")
+	wantResumed := lbvcPartitionState(s1, "resumed")
 	var problems []string
 	check := func(how string) {
 		waitForPartition(t, 10*time.Second, "foo", 0, s1)
@@ -53,6 +65,24 @@ func TestLbvcScenarioRestart(t *testing.T) {
 		time.Sleep(300 * time.Millisecond)
 		if got := lbvcPartitionState(s1, "foo"); got != want {
 			problems = append(problems, fmt.Sprintf("after restart by %s: state %q, before the restart %q", how, got, want))
+		}
+		if !strings.Contains(wantResumed, "paused=true") {
+			waitForPartition(t, 10*time.Second, "resumed", 0, s1)
+			time.Sleep(200 * time.Millisecond)
+			if got := lbvcPartitionState(s1, "resumed"); got != wantResumed {
+				problems = append(problems, fmt.Sprintf("after restart by %s: the stream that was paused and resumed before the restart is in state %q, before the restart %q", how, got, wantResumed))
+			}
+		}
+		// a restarted server serves its streams again: the partition it leads accepts a publish (reported only for
+		// the obligations about Restore / the end of recovery)
+		obl := os.Getenv("LBVC_OBLIGATION")
+		if c2, err := lift.Connect([]string{"localhost:5050"}); err == nil && (obl == "" || strings.Contains(obl, "Restore") || strings.Contains(obl, "finishedRecovery") || strings.Contains(obl, "StartRecovered")) {
+			pctx, pcancel := context.WithTimeout(context.Background(), 5*time.Second)
+			if _, err := c2.Publish(pctx, "resumed", []byte("after-"+how), lift.AckPolicyLeader()); err != nil {
+				problems = append(problems, fmt.Sprintf("after restart by %s: publishing to a stream this server leads fails: %v (the partition was never started)", how, err))
+			}
+			pcancel()
+			c2.Close()
 		}
 		if s1.metadata.GetStream("gone") != nil {
 			problems = append(problems, "after restart by "+how+": a deleted stream is back")
